@@ -26,37 +26,43 @@ CLAIMED = {
             "documents; rollback discards", "5/C04"),
     "C05": ("lock-region must-analysis over MIR CFGs",
             "every shared-state effect of every writer entry point lies inside the writer_lock region on every path; cached live-docs "
-            "reuse is guarded by the generation comparison", "5/C05"),
+            "reuse is guarded by the generation comparison, and every published segment gets a generation above all manifest "
+            "generations (1 + max over all segments, no subset)", "5/C05"),
     "C06": ("lock-region pairing and call-graph who-may-call",
             "reader holds the manifest read lock from list copy to last file open while compaction unlinks under the write lock; an "
             "open reader never returns to path-addressed storage", "5/C06"),
-    "C07": ("control-dependence / value-flow of the candidate-source decision on the query matcher",
-            "ONE clause only (candidate completeness): the choice of the postings-driven candidate source must consult the query "
-            "matcher; today it does not (recorded known finding). Matching semantics themselves are runtime and not decided", "5/C07"),
+    "C07": ("control-dependence / value-flow of the candidate-source decision on the query matcher; decision-table extraction by path enumeration; influence (data + control) slice",
+            "TWO clauses only: (candidate completeness) the choice of the postings-driven candidate source must consult the query "
+            "matcher; today it does not (recorded known finding); (bool default) the default minimum_should_match is extracted as a "
+            "decision table (0 / 1 / 0) and is independent of must_not. Matching semantics themselves are runtime and not decided", "5/C07"),
     "C08": ("comparator who-may-call, operator-table agreement over sibling range sites, guard on the nested-object recursion",
-            "THREE clauses only: keyword comparisons go through the one case-insensitive comparator; every comparison with a range "
+            "FOUR clauses only: keyword comparisons go through the one case-insensitive comparator; every comparison with a range "
             "bound is >= min / <= max at all sibling sites; the nested recursion binds the iterated object and skips objects of another "
-            "parent. Which documents pass a filter tree is runtime and not decided", "5/C08"),
+            "parent (loop form or filtered-candidates form); the writer numbers the objects of one nested path in one index space "
+            "per document. Which documents pass a filter tree is runtime and not decided", "5/C08"),
     "C09": ("ADT-table check of the score algebra, value-flow of tie breakers to their validator, control-dependence of the pruning threshold on the hook parameters",
             "score expression type has only sub-additive nodes with validated tie breakers; the pruning threshold is finite only when "
             "neither a collector nor a score-adjust hook is attached; collection is not gated by the heap (bound soundness itself, "
             "incl. BMW block bounds, is not decided)", "5/C09"),
     "C11": ("dominance of rejecting comparisons over success returns in the cursor decoder; hash-input coverage; argument provenance",
             "every successful cursor decode is dominated by generation / plan-hash / version tests that reject on inequality; the plan "
-            "hash covers kind, name and order; search passes its own generation, errors on an unseen cursor and emits next_cursor "
+            "hash covers kind, name and (for every kind) order; search passes its own generation, errors on an unseen cursor and emits next_cursor "
             "only past the limit from the last hit's key (completeness / duplicate-freedom not decided)", "5/C11"),
     "C12": ("value-flow from request thresholds to cut-off operations in per-segment finishers and merge arms; sibling accessor agreement",
             "no truncate/filter/retain/take by size/min_doc_count/max_doc_count before all segments are merged (8 sites recorded as known "
-            "findings); numeric collectors read i64 and f64 columns alike", "5/C12"),
+            "findings); numeric collectors read i64 and f64 columns alike; every aggregation node that is finished is fed every "
+            "collected document", "5/C12"),
     "C13": ("control-dependence of collector calls on cursor-key comparisons (direct and through accept callbacks), argument provenance of the suggester",
             "documents reach the aggregation collector before the cursor test; executors never prune or gate collection while a collector "
             "is attached; suggestions depend on req.suggest only", "5/C13"),
-    "C14": ("dominance of the safety check over writes and the manifest lock; field-class containment between ingestion and the safety check",
+    "C14": ("dominance of the safety check over writes and the manifest lock; field-class containment between ingestion and the safety check; decision-table extraction by path enumeration",
             "compaction refuses before touching anything; every Schema field list consumed by the segment build is examined by "
-            "ensure_compact_safe (thorough tier: also under the vectors feature)", "5/C14"),
+            "ensure_compact_safe (thorough tier: also under the vectors feature); the guard's per-field decision table refuses every "
+            "(kind, indexed, fast) combination for which the build writes segment-only data and stored is false", "5/C14"),
     "C15": ("call-graph containment of error origins (commit-time per-document checks ⊆ add-time checks) with dominance over the WAL append",
             "every function in which the segment build can originate a content error is also run by add_document before the WAL "
-            "append, with failure returning an error; nothing fallible runs between append and queue push", "5/C15"),
+            "append, with failure returning an error, and the shared checkers run on EVERY accepting path (must, not may); nothing "
+            "fallible runs between append and queue push", "5/C15"),
     "C16": ("panic-source enumeration over the call graph with local discharge patterns and a reasoned table; validator dominance",
             "every explicit unwrap/expect/panic!/assert!/unreachable! reachable from IndexReader::search is discharged by a local "
             "pattern or reasoned; request validators dominate segment execution; front ends enter only through IndexReader::search "
@@ -69,23 +75,27 @@ CLAIMED = {
     "C20": ("type-based non-interference of the profile flag (control-dependence regions with an effect whitelist), read/write discipline of QueryStats",
             "`profile` half: the flag is read only by the search entry functions, branches on it and on the optional stats handle "
             "control only profiling state, counters are write-only outside to_execution_profile; explain: final_score is synchronised "
-            "after the last score-mutating call (explain's non-interference itself is not decided)", "5/C20"),
+            "after the last score-mutating call and the per-segment rank limit under explain is the live-document count, independent "
+            "of limit/cursor (explain's non-interference beyond that is not decided)", "5/C20"),
     "C21": ("value-flow from regex match offsets through byte arithmetic to str slicing with a char-boundary sanitiser requirement",
             "every arithmetic slice bound on the highlighted text passes an is_char_boundary loop (or boundary helper) before the "
             "slice; fragments are pushed only on a match, once per iteration, in a loop bounded by number_of_fragments", "5/C21"),
     "C23": ("who-may-call over the handler call graph (route table extracted from the router), ordering inside the batch add",
             "no HTTP handler can reach the queue-wiping rollback / truncate; /add and /bulk queue through the all-or-nothing "
             "add_documents, whose checks precede the first append and whose failure arm restores queue and log", "5/C23"),
-    "C24": ("handler signature table, spawn_blocking containment of heavy core calls, status-constant table, fallback presence",
+    "C24": ("handler signature table, spawn_blocking containment of heavy core calls, status-constant table, fallback presence, panic-source enumeration over the request context",
             "handlers return Result<_,HttpError> or a response; HttpError renders the JSON envelope with its status; heavy core calls run "
             "inside spawn_blocking with the JoinError mapped to 500; status constants follow the documented table; unknown routes and "
-            "methods get the envelope", "5/C24"),
+            "methods get the envelope; no undischarged panic source and no non-boundary byte-offset string operation in the code that "
+            "runs on the async runtime while a request is answered", "5/C24"),
     "C25": ("who-may-call from the front ends into the core, SearchResult immutability by type, constant-table agreement",
             "front ends reach the core only through the public entry points and never modify a SearchResult; all IndexOptions "
-            "constructions agree on k1/b/positions/storage; CLI string tables equal the serde names", "5/C25"),
-    "C26": ("null-check dominance for every raw-pointer parameter and value-flow of the bounded write",
-            "all clauses: every dereference behind a null check; count == NUL offset == min(len, buf_cap-1); source is bytes.as_ptr(); "
-            "writes only when buf_cap != 0; no other write; returns the count; early returns are constants", "5/C26"),
+            "constructions agree on k1/b/positions/storage; CLI string tables equal the serde names; request parts built per element "
+            "in a loop carry no state from earlier elements", "5/C25"),
+    "C26": ("null-check dominance for every raw-pointer parameter; abstract interpretation of write extents against buf_cap (three-point lattice, fixpoint over all definitions)",
+            "all clauses: every dereference behind a null check; every write through the output pointer enumerated and its extent "
+            "classified < / <= buf_cap from all definitions (min, saturating_sub, +1, guarded -1); NUL position == copied count == "
+            "return value; source is the encoded response without offset; writes only when buf_cap != 0; early returns are constants", "5/C26"),
     "C28": ("taint/sanitiser flow over MIR (deserialised paths must be re-rooted), constructor who-may-call, path-builder provenance",
             "a manifest loaded from disk is re-rooted at the opened directory before it is published; SegmentPaths are built only by "
             "directory::segment_paths as root.join(name-with-id); every root handed to the path builders derives from the opened "
